@@ -43,6 +43,9 @@ def _burrow_ite[T: Base](expr: T) -> T:
         return expr
 
     different_idx = matches.index(False)
+    if not isinstance(old_true.args[different_idx], Base) or not isinstance(old_false.args[different_idx], Base):
+        # the difference is in a parameter (the bounds of an Extract, an extension amount), not in an operand
+        return expr
     inner_if = claripy.If(expr.args[0], old_true.args[different_idx], old_false.args[different_idx])
     new_args = list(old_true.args)
     new_args[different_idx] = burrow_ite(inner_if)
